@@ -277,16 +277,25 @@ pub const GROUPS: &[(&str, &[(&str, &[Sel])])] = &[
             ),
         ],
     ),
+    // renetcode server: types
     (
-        "TokenTable",
+        "NcServerTypes",
         &[(
             "renetcode/src/server.rs",
             &[
+                Sel::Enum("ConnectionState"),
+                Sel::Struct("Connection"),
                 Sel::Struct("ConnectTokenEntry"),
-                Sel::StructView("NetcodeServer", &["connect_token_entries"]),
-                Sel::Method("NetcodeServer", "find_or_add_connect_token_entry"),
+                Sel::Struct("NetcodeServer"),
+                Sel::Enum("ServerResult"),
+                Sel::Enum("ServerAuthentication"),
+                Sel::Struct("ServerConfig"),
             ],
         )],
+    ),
+    (
+        "TokenTable",
+        &[("renetcode/src/server.rs", &[Sel::Method("NetcodeServer", "find_or_add_connect_token_entry")])],
     ),
     (
         "NcSerialize",
@@ -383,6 +392,33 @@ pub const GROUPS: &[(&str, &[(&str, &[Sel])])] = &[
             ),
         ],
     ),
+    // renetcode server: lookups, accessors, clock
+    (
+        "NcServerQuery",
+        &[
+            ("renetcode/src/lib.rs", &[Sel::Const("NETCODE_MAX_CLIENTS")]),
+            (
+                "renetcode/src/server.rs",
+                &[
+                    Sel::Fn("find_client_by_id"),
+                    Sel::Fn("find_client_slot_by_id"),
+                    Sel::Method("NetcodeServer", "addresses"),
+                    Sel::Method("NetcodeServer", "current_time"),
+                    Sel::Method("NetcodeServer", "user_data"),
+                    Sel::Method("NetcodeServer", "time_since_last_received_packet"),
+                    Sel::Method("NetcodeServer", "client_addr"),
+                    Sel::Method("NetcodeServer", "clients_slot"),
+                    Sel::Method("NetcodeServer", "clients_id_iter"),
+                    Sel::Method("NetcodeServer", "clients_id"),
+                    Sel::Method("NetcodeServer", "max_clients"),
+                    Sel::Method("NetcodeServer", "set_max_clients"),
+                    Sel::Method("NetcodeServer", "connected_clients"),
+                    Sel::Method("NetcodeServer", "is_client_connected"),
+                    Sel::Method("NetcodeServer", "update"),
+                ],
+            ),
+        ],
+    ),
 ];
 
 pub fn work_list() -> Vec<WorkItem> {
@@ -442,6 +478,12 @@ pub const HASHMAP_VALUES_MUT_OK: &[(&str, &str, &str, &str)] = &[
         "each iteration touches only its own connection (the key is only compared)",
     ),
     ("renet/src/server.rs", "RenetServer::update", "self.connections", "each iteration touches only its own connection"),
+    (
+        "renetcode/src/server.rs",
+        "NetcodeServer::update",
+        "self.pending_clients",
+        "each iteration touches only its own pending connection",
+    ),
 ];
 
 /// read-only `hash_map.iter()` chains that are accepted although the iteration order of a `HashMap` is unspecified:
@@ -453,6 +495,15 @@ pub const HASHMAP_ITER_ORDER_OK: &[(&str, &str, &str, &str)] = &[
     ("renet/src/server.rs", "RenetServer::disconnections_id_iter", "self.connections", "result claimed up to permutation"),
     ("renet/src/server.rs", "RenetServer::connected_clients", "self.connections", "`count()` does not depend on the order"),
 ];
+
+/// Types whose fields hold `&mut` references and that are nevertheless translated by value: (file, type, justification).
+/// Everywhere else a `&mut` inside a struct / enum field is a TRANSLATE-ERROR.
+pub const BORROWED_FIELDS_OK: &[(&str, &str, &str)] = &[(
+    "renetcode/src/server.rs",
+    "ServerResult",
+    "result type only: its `&'s mut [u8]` payloads are slices of the server's scratch buffer `out`, built in return \
+     position; the value is the snapshot of those bytes at the return (the buffer is rewritten before it is read again)",
+)];
 
 /// External types that are not translated but mapped to an opaque RustSem type
 /// (last path segments, Lean name).
